@@ -124,6 +124,7 @@ def history_oracle(case, rng, nhist, rtol=1e-6, points=None):
     """returns None or a failure description. `points`: optional list of input-state lists to visit"""
     pm = _pm()
     m, sigs = case.make()
+    zoo.vary_layout(rng, sigs)
     if getattr(m, "scaling", None) is not None and hasattr(m.scaling, "damping"):
         m.scaling.damping = 0.0  # damped AggScaling is a documented memory (exempt)
     base = [zoo.vcopy(s.state) for s in sigs]
@@ -177,13 +178,21 @@ def history_oracle(case, rng, nhist, rtol=1e-6, points=None):
     for s in sigs:
         if s.sensitivity is not None and zoo.maxabs(s.sensitivity) != 0:
             return f"{case.name}: sensitivity() without a seed produced a sensitivity on '{s.tag}'"
-    seeds = zoo._make_seeds(rng, m, case, partial=True)
-    for so, w in zip(m.sig_out, seeds):
-        if w is not None:
-            so.sensitivity = zoo.vcopy(w)
-    m.sensitivity()
-    yh, gh = _snap(m, sigs)
-    # fresh instance
+    # several seeded sensitivity passes (independent seeds, reset in between) after ONE response: caches filled by the first
+    # pass (LDAS data bases, per-mode adjoint solvers) must not change what the later passes return
+    npass = int(rng.integers(1, 4))
+    all_seeds, hist = [], []
+    for k in range(npass):
+        seeds = zoo._make_seeds(rng, m, case, partial=True)
+        all_seeds.append(seeds)
+        for so, w in zip(m.sig_out, seeds):
+            if w is not None:
+                so.sensitivity = zoo.vcopy(w)
+        m.sensitivity()
+        hist.append(_snap(m, sigs))
+        if k < npass - 1:
+            m.reset()
+    # fresh instance, same inputs, same passes
     m2, sigs2 = case.make()
     if getattr(m2, "scaling", None) is not None and hasattr(m2.scaling, "damping"):
         m2.scaling.damping = 0.0
@@ -191,20 +200,26 @@ def history_oracle(case, rng, nhist, rtol=1e-6, points=None):
         m2.sf = m.sf  # documented memory (exempt)
     zoo._set_states(sigs2, xf)
     m2.response()
-    for so, w in zip(m2.sig_out, seeds):
-        if w is not None:
-            so.sensitivity = zoo.vcopy(w)
-    m2.sensitivity()
-    yf, gf = _snap(m2, sigs2)
-    case.debug = dict(xf=xf, yh=yh, yf=yf, gh=gh, gf=gf, seeds=seeds)
-    for j, (a, b) in enumerate(zip(yh, yf)):
-        ok, why = _cmp(a, b, rtol)
-        if not ok:
-            return f"{case.name}: output {j} after a history differs from a fresh instance: {why}"
-    for i, (a, b) in enumerate(zip(gh, gf)):
-        ok, why = _cmp(a, b, rtol * 10)
-        if not ok:
-            return f"{case.name}: sensitivity of input {i} after a history differs from a fresh instance: {why}"
+    fresh = []
+    for k in range(npass):
+        for so, w in zip(m2.sig_out, all_seeds[k]):
+            if w is not None:
+                so.sensitivity = zoo.vcopy(w)
+        m2.sensitivity()
+        fresh.append(_snap(m2, sigs2))
+        if k < npass - 1:
+            m2.reset()
+    case.debug = dict(xf=xf, hist=hist, fresh=fresh, seeds=all_seeds)
+    for k in range(npass):
+        (yh, gh), (yf, gf) = hist[k], fresh[k]
+        for j, (a, b) in enumerate(zip(yh, yf)):
+            ok, why = _cmp(a, b, rtol)
+            if not ok:
+                return f"{case.name}: output {j} after a history differs from a fresh instance (pass {k}): {why}"
+        for i, (a, b) in enumerate(zip(gh, gf)):
+            ok, why = _cmp(a, b, rtol * 10)
+            if not ok:
+                return f"{case.name}: sensitivity of input {i} after a history differs from a fresh instance (seeded pass {k} of {npass}): {why}"
     return None
 
 
@@ -320,7 +335,9 @@ def correspondence(ctx):
             r = call_impl(history_oracle, case, nprng, int(nprng.integers(6, 20 if ctx.quick else 60)))
             ctx.evaluations += 1
             ctx.branch("lib." + fam)
-            if r[0] == "err":
+            if r[0] == "err" and zoo.numerical_limit(fam, r[2]):
+                ctx.skipped_boundary += 1
+            elif r[0] == "err":
                 ctx.oracle_fail(f"{case.name}: a protocol-respecting history raised {r[2][:300]}", {"family": fam, "case": case.name})
             elif r[1]:
                 ctx.oracle_fail(r[1], {"family": fam, "case": case.name})
